@@ -37,6 +37,10 @@ type unmarshaledXML struct {
 	XMLAttr  []xml.Attr        `xml:",any,attr"`
 	Chardata string            `xml:",chardata"`
 	Children []*unmarshaledXML `xml:",any"`
+
+	// the prefix of the value has been resolved (once is enough: the
+	// children of a node may be asked for more than once)
+	resolved bool
 }
 
 func (xmlNode *unmarshaledXML) name() string {
@@ -81,6 +85,10 @@ func locateIdentity(typ schema.Type, val, ns string) *schema.Identity {
 }
 
 func (xmlNode *unmarshaledXML) convertPrefixedValue(sn schema.Node) {
+	if xmlNode.resolved {
+		return
+	}
+	xmlNode.resolved = true
 	for _, atr := range xmlNode.XMLAttr {
 		if atr.Name.Space == "xmlns" {
 			if strings.HasPrefix(xmlNode.Chardata, atr.Name.Local+":") {
@@ -89,6 +97,9 @@ func (xmlNode *unmarshaledXML) convertPrefixedValue(sn schema.Node) {
 				if id != nil {
 					xmlNode.Chardata = id.Val
 				}
+				// A value has one prefix: what it has been resolved to is
+				// not looked up again under the other declarations
+				return
 			}
 		}
 	}
@@ -121,7 +132,7 @@ func (xmlNode *unmarshaledXML) unserializedChildren(path []string, sn schema.Nod
 		case schema.LeafList:
 			c.convertPrefixedValue(cn)
 			if !ok {
-				v = &unmarshaledXML{c.XMLName, c.XMLAttr, "", make([]*unmarshaledXML, 0)}
+				v = &unmarshaledXML{XMLName: c.XMLName, XMLAttr: c.XMLAttr, Children: make([]*unmarshaledXML, 0)}
 				fields[name] = v
 				list = append(list, v)
 			}
@@ -131,7 +142,7 @@ func (xmlNode *unmarshaledXML) unserializedChildren(path []string, sn schema.Nod
 			// name.  They are the entries of one List node, in document
 			// order.
 			if !ok {
-				v = &unmarshaledXML{c.XMLName, c.XMLAttr, "", make([]*unmarshaledXML, 0)}
+				v = &unmarshaledXML{XMLName: c.XMLName, XMLAttr: c.XMLAttr, Children: make([]*unmarshaledXML, 0)}
 				fields[name] = v
 				list = append(list, v)
 			}
